@@ -345,7 +345,7 @@ def schema_to_struct_code(
     if the_type == "object":
         properties = schema.get("properties", {})
         for name, sch in properties.items():
-            if "default" in sch and name in required:
+            if "default" in sch and required is not None and name in required:
                 required.remove(name)
             body += [
                 f"    {name}: {convert_to_field_code(sch, definitions_schema, additional_fields=additional_fields)}"
